@@ -685,6 +685,23 @@ def unwraps(rep, prog, rule, only=None, floor=20):
                 sup = any(cc[0] == "call" and cc[1] == "is_supported" and v is True
                           for cc, v in facts)
                 via = None
+                if not sup and f.kind == "closure":
+                    # the guard may dominate the place where the closure is made
+                    g, depth = f, 0
+                    while g is not None and g.kind == "closure" and depth < 3 and not sup:
+                        par = prog.fns.get(g.d.get("parent"))
+                        if par is None:
+                            break
+                        ps = Sym(par)
+                        for b2, blk2 in enumerate(par.blocks):
+                            if blk2["c"]:
+                                continue
+                            for st2 in blk2["s"]:
+                                if st2[0] == "a" and st2[2][0] == "agg" and st2[2][1] == "closure" and st2[2][2] == g.id:
+                                    if any(cc[0] == "call" and cc[1] == "is_supported" and v is True
+                                           for cc, v in ps.facts_at(b2)):
+                                        sup = True
+                        g, depth = par, depth + 1
                 if not sup and not f.d.get("pub"):
                     # a private helper: the guard may sit at its call sites
                     sites = prog.callers().get(f.id, [])
